@@ -145,6 +145,9 @@ pub struct Case {
     /// background save is in progress (0 = none)
     #[serde(default)]
     pub disk_fault_rate: f64,
+    /// rate of injected errors / torn writes on the state journal while catalogue commands run (0 = none)
+    #[serde(default)]
+    pub journal_fault_rate: f64,
 }
 
 impl Case {
